@@ -173,7 +173,10 @@ class ConvNextConfig:
             This is always `16` for all convnext architectures.
     """
 
-    model_type: str = "tiny"  # Options: tiny, small, base, large
+    model_type: str = field(
+        default="tiny",
+        validator=lambda instance, attr, value: instance.validate_model_type(value),
+    )  # Options: tiny, small, base, large
     arch: dict = field(
         factory=lambda: {"depths": [3, 3, 9, 3], "channels": [96, 192, 384, 768]}
     )
@@ -186,6 +189,17 @@ class ConvNextConfig:
     up_interpolate: bool = True
     output_stride: int = 1
     max_stride: int = 16
+
+    def validate_model_type(self, value):
+        """Validate model_type.
+
+        Ensure model_type is one of "tiny", "small", "base", or "large".
+        """
+        valid_types = ["tiny", "small", "base", "large"]
+        if value not in valid_types:
+            message = f"Invalid model_type. Must be one of {valid_types}"
+            logger.error(message)
+            raise ValueError(message)
 
 
 @define
@@ -221,7 +235,10 @@ class ConvNextSmallConfig(ConvNextConfig):
             This is always `16` for all convnext architectures.
     """
 
-    model_type: str = "small"  # Options: tiny, small, base, large
+    model_type: str = field(
+        default="small",
+        validator=lambda instance, attr, value: instance.validate_model_type(value),
+    )  # Options: tiny, small, base, large
     arch: dict = field(
         factory=lambda: {"depths": [3, 3, 27, 3], "channels": [96, 192, 384, 768]}
     )
@@ -234,6 +251,17 @@ class ConvNextSmallConfig(ConvNextConfig):
     up_interpolate: bool = True
     output_stride: int = 1
     max_stride: int = 16
+
+    def validate_model_type(self, value):
+        """Validate model_type.
+
+        Ensure model_type is one of "tiny", "small", "base", or "large".
+        """
+        valid_types = ["tiny", "small", "base", "large"]
+        if value not in valid_types:
+            message = f"Invalid model_type. Must be one of {valid_types}"
+            logger.error(message)
+            raise ValueError(message)
 
 
 @define
@@ -269,7 +297,10 @@ class ConvNextBaseConfig(ConvNextConfig):
             This is always `16` for all convnext architectures.
     """
 
-    model_type: str = "base"  # Options: tiny, small, base, large
+    model_type: str = field(
+        default="base",
+        validator=lambda instance, attr, value: instance.validate_model_type(value),
+    )  # Options: tiny, small, base, large
     arch: dict = field(
         factory=lambda: {"depths": [3, 3, 27, 3], "channels": [128, 256, 512, 1024]}
     )
@@ -282,6 +313,17 @@ class ConvNextBaseConfig(ConvNextConfig):
     up_interpolate: bool = True
     output_stride: int = 1
     max_stride: int = 16
+
+    def validate_model_type(self, value):
+        """Validate model_type.
+
+        Ensure model_type is one of "tiny", "small", "base", or "large".
+        """
+        valid_types = ["tiny", "small", "base", "large"]
+        if value not in valid_types:
+            message = f"Invalid model_type. Must be one of {valid_types}"
+            logger.error(message)
+            raise ValueError(message)
 
 
 @define
@@ -317,7 +359,10 @@ class ConvNextLargeConfig(ConvNextConfig):
             This is always `16` for all convnext architectures.
     """
 
-    model_type: str = "large"  # Options: tiny, small, base, large
+    model_type: str = field(
+        default="large",
+        validator=lambda instance, attr, value: instance.validate_model_type(value),
+    )  # Options: tiny, small, base, large
     arch: dict = field(
         factory=lambda: {"depths": [3, 3, 27, 3], "channels": [192, 384, 768, 1536]}
     )
@@ -330,6 +375,17 @@ class ConvNextLargeConfig(ConvNextConfig):
     up_interpolate: bool = True
     output_stride: int = 1
     max_stride: int = 16
+
+    def validate_model_type(self, value):
+        """Validate model_type.
+
+        Ensure model_type is one of "tiny", "small", "base", or "large".
+        """
+        valid_types = ["tiny", "small", "base", "large"]
+        if value not in valid_types:
+            message = f"Invalid model_type. Must be one of {valid_types}"
+            logger.error(message)
+            raise ValueError(message)
 
 
 @define
